@@ -8,7 +8,7 @@ import infretis.core.tis as tis
 from infretis.classes.engines.enginebase import EngineBase
 from infretis.classes.path import Path
 from oracles import ensemble as E
-from symx import npfacade
+from symx import core, npfacade
 from symx.stubs import Energies, Line, LineEngine, SymRng, orders_of, tags_of
 
 logging.disable(logging.CRITICAL)
@@ -205,6 +205,7 @@ def _retis(ctx, sh):
     try:
         md, call = _run(ctx, ens0, ens1, old0, old1, eng0, eng1, full, mv, None)
     except Exception as e:
+        core.reraise_if_proxy_limitation(e)
         ctx.fail(f"{P}:zero-swap-no-exception", repr(e))
         return
     status = md["status"]
@@ -244,6 +245,7 @@ def _retis(ctx, sh):
     try:
         md2, call2 = _run(ctx, ens0, ens1, n0, n1, eng0, eng1, full, mv, None)
     except Exception as e:
+        core.reraise_if_proxy_limitation(e)
         ctx.fail(f"{P}:zero-swap-no-exception", repr(e))
         return
     if (L0 < M) and (L1 < M):
@@ -277,6 +279,7 @@ def _quantis(ctx, sh):
     try:
         md, call = _run(ctx, ens0, ens1, old0, old1, eng0, eng1, [lam0, lamN], ["sh", "sh"], None)
     except Exception as e:
+        core.reraise_if_proxy_limitation(e)
         ctx.fail(f"{P}:zero-swap-no-exception", repr(e))
         return
     status = md["status"]
